@@ -51,10 +51,12 @@ def decode_attempt(d):
     enc, data = d[2][0], d[2][1]
     cs = {c.rsplit("::", 1)[-1] for c in consts_of(enc) if "data_encoding::BASE64" in c}
     alph = "url" if cs and all(c.startswith("BASE64URL") for c in cs) else ("std" if cs and not any(c.startswith("BASE64URL") for c in cs) else "mixed")
-    spec = find(enc, lambda y: isinstance(y, tuple) and y and y[0] == "agg" and str(y[1]).endswith("Specification"))
+    # the specification the encoding is built from — a struct literal, or a specification updated member by member
+    mk = find(enc, lambda y: is_call(y, "Specification::encoding") and len(y[2]) == 1)
+    spec = mk[2][0] if mk is not None else find(enc, lambda y: isinstance(y, tuple) and y and y[0] == "agg" and str(y[1]).endswith("Specification"))
     if spec is not None:
-        pad = dict(spec[3]).get("padding")
-        nopad = pad is not None and pad[0] == "agg" and pad[2] == "None"
+        pad = flow.simplify_term(("field", spec, "padding"))
+        nopad = isinstance(pad, tuple) and len(pad) == 4 and pad[0] == "agg" and pad[2] == "None"
     else:
         nopad = bool(cs) and all(c.endswith("_NOPAD") for c in cs)
     trim = find(data, lambda y: is_call(y, "str::trim_end_matches") or is_call(y, "str::trim_matches"))
